@@ -43,7 +43,7 @@ class Grouping:
         self.site = None
 
 
-def sort_split(du, expr, stmt, label_names=(), label_attrs=(), is_label=None, by_id=False):
+def sort_split(du, expr, stmt, label_names=(), label_attrs=(), is_label=None, by_id=False, _depth=0):
     """Is `expr` (an index used to pick the members of a class) a piece of a sort-and-split grouping of the labels?
     label_names: parameter names that hold the labels; is_label: alternatively a predicate on a Cone.  by_id: the pieces are
     picked by the class id as a list position (`pieces[i]`), which is right only when a piece exists for every id (G5).
@@ -51,6 +51,34 @@ def sort_split(du, expr, stmt, label_names=(), label_attrs=(), is_label=None, by
     g = Grouping()
     c = cone(du, expr, stmt, interproc=False)
     splits = _calls(c.nodes, SPLITS)
+    if not splits and _depth < 1:
+        # the grouping may have been factored out: a helper of the package that receives the labels and returns the pieces
+        P, f = du.P, du.f
+        from ..dataflow import get_defuse as _gdu
+        for call_ in [n for n in c.nodes if isinstance(n, ast.Call)]:
+            try:
+                tg = [t_[1] for t_ in P.resolve_callee(call_.func, f) if t_[0] == "repo"]
+            except Exception:
+                tg = []
+            for h in tg:
+                if not any(isinstance(x, ast.Call) and _fname(x) in SPLITS for x in ast.walk(h.node)):
+                    continue
+                b = P.bind_args(h, call_.args, call_.keywords)
+                cst = du.stmt_of(call_)
+
+                def _lab(a_):
+                    cn_ = cone(du, a_, cst, interproc=False)
+                    return (is_label is not None and is_label(cn_)) or bool(set(label_names) & cn_.params)
+                hl = [p_ for p_, a_ in b.items() if _lab(a_)]
+                hdu = _gdu(h, P)
+                for r in [x for x in walk_no_nested(h.node) if isinstance(x, ast.Return) and x.value is not None]:
+                    for part in (r.value.elts if isinstance(r.value, ast.Tuple) else [r.value]):
+                        sub = sort_split(hdu, part, r, label_names=hl, by_id=False, _depth=_depth + 1)
+                        if sub.kind is not None:
+                            if sub.ok:
+                                sub.why = f"{sub.why}, in the helper {h.qualname}"
+                            return sub
+        return g
     if not splits:
         return g
     g.kind = "sort-split"
@@ -161,6 +189,9 @@ def _mask_list(du, e, c, cmps):
             return "mask-list", False, f"members are selected with `{src(bad[0])[:40]}`, not by equality with the class"
         # a list of masks indexed by the class: the comprehension runs over the same range as the index that picks from it
         if isinstance(e, ast.Subscript):
+            first_ = e.slice.elts[0] if isinstance(e.slice, ast.Tuple) and e.slice.elts else e.slice
+            if isinstance(first_, ast.Constant) or (isinstance(first_, ast.UnaryOp) and isinstance(first_.operand, ast.Constant)):
+                return "mask-list", False, f"`{src(e)[:40]}` takes the same fixed row of masks whatever the class being accumulated"
             for n in c.nodes:
                 if isinstance(n, ast.ListComp) and any(x in cmps for x in ast.walk(n.elt)):
                     gen = n.generators[0]
